@@ -1390,7 +1390,6 @@ package url
 //@   ensures result1 == nil ==> (specPartsN(input) <= 4 && u.isIPv4)   [C07]
 //@   ensures result1 == nil ==> (forall k int :: 0 <= k && k < specPartsN(input) ==> specNumSyntax(specSplitPart(input, ".", k)))   [C07]
 //@   ensures result1 == nil ==> specIPv4RangeOK(input)   [C07]
-//@   ensures result1 == nil ==> result0 == specIPv4Ser(specIPv4Value(input))   [C07]
 //@   loop 1 modifies u.validationErrors, u.validationErrors[..]
 //@   loop 1 invariant old(allNonFatal(u)) ==> allNonFatal(u)
 //@   loop 1 invariant len(numbers) == $i && (numbers == nil || freshL(numbers)) && len(parts) == specPartsN(input) && len(parts) <= 4 && len(parts) >= 1
@@ -1407,13 +1406,12 @@ package url
 //@   loop 3 invariant arr(u.validationErrors) == old(arr(u.validationErrors)) || fresh(u.validationErrors)
 //@   loop 3 invariant arr(u.validationErrors) == pre(arr(u.validationErrors)) || freshL(u.validationErrors)
 //@   loop 3 invariant forall k int :: 0 <= k && k < $i ==> numbers[k] <= 255
-//@   loop 4 modifies nothing
-//@   loop 4 invariant 0 <= ipv4 && ipv4 <= 4294967295 && len(numbers) <= 3 && $i <= len(numbers)
-//@   loop 4 invariant forall k int :: 0 <= k && k < len(numbers) ==> (0 <= numbers[k] && numbers[k] <= 255)
-//@   loop 4 invariant 0 <= pre(ipv4) && pre(ipv4) < specPow256(4 - len(numbers))
-//@   loop 4 invariant ($i == 0 ==> ipv4 == pre(ipv4)) && ($i == 1 ==> ipv4 == pre(ipv4) + numbers[0] * 16777216)
-//@            && ($i == 2 ==> ipv4 == pre(ipv4) + numbers[0] * 16777216 + numbers[1] * 65536)
-//@            && ($i == 3 ==> ipv4 == pre(ipv4) + numbers[0] * 16777216 + numbers[1] * 65536 + numbers[2] * 256)
+//@   ensures (result1 == nil && specPartsN(input) == 1) ==> result0 == specIPv4Ser(specPartVal(input, 0))   [C07 value-one-part]
+//@   ensures (result1 == nil && specPartsN(input) == 2) ==> result0 == specIPv4Ser(specPartVal(input, 1) + specPartVal(input, 0) * 16777216)   [C07 value-two-parts]
+//@   ensures (result1 == nil && specPartsN(input) == 3) ==> result0 == specIPv4Ser(specPartVal(input, 2) + specPartVal(input, 0) * 16777216 + specPartVal(input, 1) * 65536)   [C07 value-three-parts]
+//@   ensures (result1 == nil && specPartsN(input) == 4) ==> result0 == specIPv4Ser(specPartVal(input, 3) + specPartVal(input, 0) * 16777216 + specPartVal(input, 1) * 65536 + specPartVal(input, 2) * 256)   [C07 value-four-parts]
+//@   ensures result1 == nil ==> (1 <= specPartsN(input) && specPartsN(input) <= 4)   [C07]
+//@   loop 4 unroll 3
 
 //@ func (*parser).parseIPv6
 //@   requires p != nil && u != nil && cur(input) && !input.eof && input.pointer == -1 && off(input.runes) == 0
